@@ -24,7 +24,13 @@ keygen_from_seed and of try_keygen_with_rng (working and failing generator):
       into_bytes (sampled coefficients and Power2Round outputs are named symbols, linear forms modulo
       q carried through the transforms) shows that pkEncode receives exactly t1 and skEncode exactly
       the sampled s1, s2 (t0: congruent modulo q with unit coefficient, equal given K7's range).
-Not decided: the ring arithmetic t = NTT^-1(A-hat o NTT(s1)) + s2, hence not byte equality itself.
+  K10 the ring arithmetic of Alg. 6 line 5: a symbolic run in which the entries of A-hat, the
+      sampled coefficients and the outputs of the transforms are named symbols and products of two
+      symbols are interned product symbols shows: the first NTT is applied to exactly s1; NTT^-1 is
+      applied to sum_j A-hat[i][j] o NTT(s1)[j] (unit coefficients modulo q - Montgomery factors
+      cancel); Power2Round is applied to that result + s2.  With C18 F (ntt / inv_ntt are the FIPS
+      maps), K3/K4, K7, K9 every step of KeyGen_internal is accounted for.
+Trusted: the hash implementations and that NTT diagonalises the negacyclic product (mathematics).
 """
 import json
 import os
@@ -101,6 +107,8 @@ def main(tier):
         jobs[s + ":lin-sk"] = [("%s:lin-sk" % s, n["keygen_from_seed"], dict(LIN, atomize="hashing::rej_bounded_poly|high_low::power2round", identity="encodings::sk_encode",
                                                                             then=n["sk_into_bytes"], **{"then.field": "1"}))]
         jobs[s + ":lin-pk"] = [("%s:lin-pk" % s, n["keygen_from_seed"], dict(LIN, atomize="high_low::power2round", identity="encodings::pk_encode", then=n["pk_into_bytes"], **{"then.field": "0"}))]
+        jobs[s + ":lin-arith"] = [("%s:lin-arith" % s, n["keygen_from_seed"], dict(LIN, atomize="hashing::rej_ntt_poly|hashing::rej_bounded_poly|ntt::ntt|ntt::inv_ntt",
+                                                                                  dump_args="ntt::ntt|ntt::inv_ntt|high_low::power2round"))]
     res, errs = aicheck.run_sets(jobs, timeout=6000)
     samples = []
     for s in sets:
@@ -208,6 +216,42 @@ def main(tier):
                 "set": s, "probe": [{kk: vv[:240] for kk, vv in d.items()} for d in ip][:1], "t0": t0_note})
             if kind == "pk":
                 samples.append({"set": s, "K9_pk_coefficients_exact": ip[0]["exact"] if ip else None})
+    # K10: the ring arithmetic of Alg. 6 line 5, symbolically (matrix entries, sampled coefficients and transform
+    # outputs are named symbols; products of two symbols are interned product symbols)
+    for s in sets:
+        P = aicheck.PARAMS[s]
+        k, l = P["k"], P["l"]
+        r = res.get("%s:lin-arith" % s)
+        if r is None or r["jobs"][0].get("error"):
+            vlib.fail_closed(rep, "driver-lin-arith:%s" % s, (errs.get("%s:lin-arith" % s) or str(r and r["jobs"][0].get("error")))[-400:])
+            continue
+        pr = [p for p in r["jobs"][0]["probes"] if p["what"] == "arg_forms"]
+
+        def forms(p):
+            out = []
+            for line in p["data"]["forms"].split("\n"):
+                if not line:
+                    continue
+                if line == "-":
+                    out.append(None)
+                    continue
+                m, d, terms = line.split("|", 2)
+                out.append((int(m), int(d), {t.rsplit(":", 1)[0]: int(t.rsplit(":", 1)[1]) for t in terms.split(",") if t}))
+            return out
+        ntts = [p for p in pr if p["inst"].startswith("ntt::ntt::<%d_" % l)]
+        invs = [p for p in pr if p["inst"].startswith("ntt::inv_ntt::<%d_" % k)]
+        p2s = [p for p in pr if p["inst"].startswith("high_low::power2round")]
+        ok_a = ok_b = ok_c = False
+        if ntts and invs and p2s:
+            fa, fb, fc = forms(ntts[0]), forms(invs[0]), forms(p2s[0])
+            ok_a = len(fa) == 256 * l and all(f == (0, 0, {"rej_bounded_poly#%d[%d]" % (i // 256, i % 256): 1}) for i, f in enumerate(fa))
+            ok_b = len(fb) == 256 * k and all(f == (8380417, 0, {"(rej_ntt_poly#%d[%d]*ntt#0[%d])" % ((i // 256) * l + j, i % 256, j * 256 + i % 256): 1 for j in range(l)}) for i, f in enumerate(fb))
+            ok_c = len(fc) == 256 * k and all(f == (8380417, 0, {"rej_bounded_poly#%d[%d]" % (l + i // 256, i % 256): 1, "inv_ntt#0[%d]" % i: 1}) for i, f in enumerate(fc))
+        ob(ok_a, "K10:ntt-of-s1", {"rule": "K10 the first NTT of key generation is applied to exactly the sampled s1", "set": s, "calls": len(ntts)})
+        ob(ok_b, "K10:matrix-vector-product", {"rule": "K10 NTT^-1 is applied to  sum_j A-hat[i][j] o NTT(s1)[j]  (point-wise, modulo q, unit coefficients: the Montgomery factors cancel)", "set": s,
+                                               "first_leaf": invs and invs[0]["data"]["forms"].split("\n")[0][:300]})
+        ob(ok_c, "K10:t-is-as1-plus-s2", {"rule": "K10 Power2Round is applied to NTT^-1(A-hat o NTT(s1)) + s2 (modulo q; canonical representative by full_reduce32's contract)", "set": s,
+                                         "first_leaf": p2s and p2s[0]["data"]["forms"].split("\n")[0][:200]})
     ksamples, kstats = c15.analyse(rep, ob, tier, {"three_bytes", "half_byte", "power2round"}, prefix="K7:")
     cov = {
         "obligations": cnt[0], "discharged": cnt[1],
